@@ -35,7 +35,7 @@ CLAIMS["C19"] = {
             "theorems (correct rounding as a relation in N with uniqueness, sign of zero, overflow iff, integer exactness iff, round trips) for all literals "
             "and values; the native Eisel-Lemire/Schubfach code and the JIT range checks are tied to the model and to strconv/encoding/json/math-big by "
             "correspondence over hard-case generators, in all four environment configurations.",
-    "note": COMMON_NOTE + " fmt_shortest is partial (monotonicity of rounding not proved) and fmt_total (17/9 digits suffice) is a named assumption.",
+    "note": COMMON_NOTE + " All C19 theorems are at full strength (fmt_shortest, fmt_total, notation included); the native Eisel-Lemire/Schubfach code is modelled by the exact specification, not verified.",
     "technique": "Lean 4 proof (exact arithmetic, induction) + differential correspondence vs strconv/math-big",
 }
 CLAIMS["C10"] = {
@@ -53,7 +53,7 @@ CLAIMS["C05"] = {
             "intentionally over-reading container skipper, and kernel-checked counter-witnesses where the C over-reads (leading-zero check, 4-byte literal "
             "compare). The assembled machine code is validated by hostile placement: every entry point on the heap, ending at a PROT_NONE page, and followed "
             "by plausible continuations, in both SIMD modes.",
-    "note": COMMON_NOTE + " Partial by nature: Lean says nothing about what the machine code loads; the guard page observes it.",
+    "note": COMMON_NOTE + " Partial by nature: Lean says nothing about what the machine code loads; the guard page observes it. The vector UTF-8 lookup algorithm is assumed sound (checked per case by the driver), advance_string_validate is not modelled.",
     "technique": "Lean 4 proof (memory-indexed scanner models, any block width) + guard-page placement correspondence",
 }
 CLAIMS["C06"] = {
@@ -73,11 +73,8 @@ CLAIMS["C13"] = {
     "technique": "Lean 4 proof (block-width irrelevance by induction) + differential runs AVX2 vs SSE",
 }
 CLAIMS["C17"] = {
-    "text": "Reader scripts (data, empty reads, data+EOF, errors), the stream decoder state machine and the stream encoder's write loop are modelled; for the "
-            "REPAIRED model chunking irrelevance, truncation-is-error, reader-error-after-values, progress and encoder delivery/first-failure are proved for all "
-            "scripts; for the SHIPPED model the negations are kernel-checked on concrete witnesses (replayed on the real code, listed as known findings) and "
-            "partial theorems hold for self-delimited values. Real decoder/encoder are run on the same scripted readers/writers next to encoding/json.",
-    "note": COMMON_NOTE + " Native skip framing and sonic's number rule are tied by correspondence only.",
+    "text": "Reader scripts (data, empty reads, data+EOF, errors), the stream decoder state machine and the stream encoder's write loop are modelled; chunking irrelevance, truncation-is-error, reader-error-after-values, progress and encoder delivery/first-failure are proved for all scripts about the repaired model, and a parametric Patched model (any subset of the five committed decoder repairs) is what the driver runs, so each repair is pinned by its own theorem/witness (negations on the pre-fix model are kernel-checked and replayed from the corpus). Real decoder/encoder run on the same scripted readers/writers next to encoding/json.",
+    "note": COMMON_NOTE + " Native skip framing and sonic's number rule are tied by correspondence only; decodeAll = strict parse loop is tied by the specstd-vs-encoding/json firewall, not proved.",
     "technique": "Lean 4 proof (state-machine refinement to value-by-value decoding, generic in the inner decoder) + scripted reader/writer correspondence",
 }
 
@@ -102,7 +99,7 @@ CLAIMS["C09"] = {
             "modelled and proved, with kernel-checked negation witnesses where the faithful model is history dependent (cache keyed by type while the program depends on "
             "addressability) and the partial theorem under the forced hypothesis; the same probe set is executed in fresh processes after different preludes "
             "(permuted order, Pretouch variants and options, thousands of filler types, same-named types, recursive types) and must be identical and equal to encoding/json.",
-    "note": COMMON_NOTE + " inline_depth_irrelevant needs the encoder IR (not modelled yet); depth variation is covered by correspondence only.",
+    "note": COMMON_NOTE + " After the loader and cache-key repairs load_maps_back and history_independence hold at full strength on the current model; the pre-fix models are kept as labelled regression witnesses; source-shape ties watch the three code sites.",
     "technique": "Lean 4 proof (order independence by induction; history machine) + fresh-process history correspondence",
 }
 CLAIMS["C14"] = {
@@ -117,7 +114,7 @@ CLAIMS["C15"] = {
     "text": "ast.Node's hidden representations (raw, lazy, loaded with soft deletion, hash index) are modelled op by op and proved to refine a plain ordered tree for "
             "every finite operation sequence under an explicit safeStep guard; for each excluded point the negation of the full statement is kernel-checked on a "
             "minimal sequence and replayed on the real node (known findings). Real nodes are driven with generated operation sequences and compared with the tree spec.",
-    "note": COMMON_NOTE + " refinement is partial exactly on what safeStep excludes; chunk layer: only At is proved; StrHash assumed collision-free in the model.",
+    "note": COMMON_NOTE + " After the four committed repairs the refinement excludes only Len() on a raw or lazily loaded node (documented laziness, listed as a known finding); chunk layer: At/Set/Push/Pop proved, MoveOne not; StrHash assumed collision-free in the model.",
     "technique": "Lean 4 proof (refinement by induction over operation sequences, negation witnesses) + operation-sequence correspondence",
 }
 CLAIMS["C16"] = {
@@ -135,7 +132,7 @@ CLAIMS["C01"] = {
             "with structural skipping as sonic's JIT does it; stream_eq_bind proves them equal (value and error kind) on every document the strict parser accepts, for "
             "every option set and type, plus field-lookup, duplicate-key, integer-exactness (iff), null and array theorems. Generated (type, document, config) cases are "
             "run through sonic, encoding/json and the model.",
-    "note": COMMON_NOTE + " Library (method-carrying/recursive) types and embedded structs are outside the model and judged by encoding/json alone; float values are taken from an oracle table (C19 owns them).",
+    "note": COMMON_NOTE + " Library (method-carrying/recursive) types and embedded structs are outside the model and judged by encoding/json alone; float values come from the exact Num model (C19).",
     "technique": "Lean 4 proof (single-pass decoder = parse-then-bind specification, induction over types) + three-voice differential correspondence",
 }
 CLAIMS["C11"] = {
@@ -146,11 +143,8 @@ CLAIMS["C11"] = {
     "technique": "Lean 4 proof (architecture equivalence as corollary of stream_eq_bind) + differential runs across the three decoder configurations",
 }
 CLAIMS["C03"] = {
-    "text": "Enc.encode is a specification of Marshal written after encoding/json (field resolution, omitempty/omitzero/,string, map key rendering and sorting, callbacks, "
-            "base64, interface re-dispatch, all nine switches) with theorems on field order, omitempty, sorted keys as a permutation, and that sonic's and encoding/json's "
-            "escape spellings denote the same bytes for every byte string; sonic's and encoding/json's outputs on generated (type, value) cases are compared token-wise in "
-            "Lean (string literals after unquoting, numbers byte-equal) and against the model.",
-    "note": COMMON_NOTE + " Compiler correctness (encoder IR compile/exec = Enc.encode) is not proved yet; both back ends are tied to the specification by correspondence.",
+    "text": "Enc.encode is a specification of Marshal written after encoding/json (field resolution, omitempty/omitzero/,string, map key rendering and sorting, callbacks, base64, interface re-dispatch, all nine switches) with theorems on field order, omitempty, sorted keys as a permutation, and that sonic's and encoding/json's escape spellings denote the same bytes for every byte string; the real compiler's program is tied to a Lean compile/exec model proved equal to the specification on a large sub-universe (see C12). sonic's and encoding/json's outputs on generated (type, value) cases are compared token-wise in Lean (string literals after unquoting, numbers byte-equal) and against the model.",
+    "note": COMMON_NOTE + " Outside the compiler-correctness theorem: callback library types, embedded fields, bool/float map keys (tied by correspondence).",
     "technique": "Lean 4 proof (properties of the encoding specification) + three-voice differential correspondence with token comparison decided in Lean",
 }
 CLAIMS["C04"] = {
@@ -161,10 +155,8 @@ CLAIMS["C04"] = {
     "technique": "Lean 4 proof (well-formedness of the encoding specification by induction) + round-trip correspondence over option sets",
 }
 CLAIMS["C12"] = {
-    "text": "Both encoder back ends are tied to one specification (Enc.encode); the Go fallback routines the interpreter uses instead of native code (integer formatting, "
-            "Quote) are transliterated and proved equal to the specification's formatting for all inputs; every C03/C04 stream runs under the JIT and under "
-            "SONIC_ENCODER_USE_VM and must be byte-identical or both fail.",
-    "note": COMMON_NOTE + " The IR compiler and the interpreter loop themselves are not modelled yet (planned: compile/exec with a compiler-correctness theorem).",
+    "text": "The encoder's intermediate representation is modelled: compile (transliterated from compiler.go, disassembly byte-identical to the real compiler on every generated type through a verif hook) and exec (transliterated from the interpreter) with a compiler-correctness theorem exec(compile T) = Enc.encode on a sub-universe that includes interface{}, integer-keyed and string-keyed maps, omitempty/omitzero/,string, EncOnlyOmitNull and the recursive named types, plus stack balance, too-deep-is-error and inline-depth irrelevance; both real back ends consume that same program; a regenerated-fact theorem states that the x86 assembler and the interpreter handle the same opcodes, test the same option bits and call corresponding helper pairs, and the Go fallbacks the interpreter uses are proved equal to the specification's formatting. Every C03/C04 stream runs under the JIT and SONIC_ENCODER_USE_VM and must be byte-identical or both fail.",
+    "note": COMMON_NOTE + " The x86 instruction sequences themselves are tied by differential runs only; callback library types and bool/float map keys are in the machine but outside the theorem.",
     "technique": "Lean 4 proof (fallback routines = specification) + differential runs JIT vs VM",
 }
 
